@@ -25,6 +25,19 @@ _POOL = None
 _NPROCS = int(os.environ.get("VERIF_PROCS", "16"))
 
 
+def _pin(counter):
+    """Pin each pool worker to one CPU: baton hand-overs between carrier threads are
+    ~3x cheaper when all carriers of a worker share a core."""
+    try:
+        with counter.get_lock():
+            k = counter.value
+            counter.value += 1
+        cpus = sorted(os.sched_getaffinity(0))
+        os.sched_setaffinity(0, {cpus[k % len(cpus)]})
+    except Exception:  # noqa: BLE001
+        pass
+
+
 def _call(job):
     mod, fn, arg = job
     try:
@@ -112,6 +125,8 @@ def main(argv=None):
         print(f"INTERNAL: no check module for {pid}: {e}")
         return 2
     try:
+        import logging
+        logging.disable(logging.CRITICAL)  # the SDK's own logging is not under test (C17 uses a captured logger)
         from vcheck.vsched import patch
         patch.patch()
     except Exception as e:  # noqa: BLE001
@@ -136,7 +151,8 @@ def main(argv=None):
         return 0
 
     if a.procs > 1:
-        _POOL = mp.get_context("fork").Pool(a.procs)
+        mpctx = mp.get_context("fork")
+        _POOL = mpctx.Pool(a.procs, initializer=_pin, initargs=(mpctx.Value("i", 0),))
     ctx = Ctx(a.tier, seed, a.procs)
     try:
         result = mod.run(ctx)
